@@ -34,6 +34,7 @@ structure Snap where
   pools : List (String × String) := []
   disputes : List ERec := []
   now : Int := 0
+  aggs : List (String × Int × String × Bool × Int) := []   -- aggregates: query, micro-report height, its reporter, flagged, timestamp
 
 structure SlScan where
   ok : Bool := true
@@ -46,6 +47,7 @@ structure SlScan where
   reports : List (MRec × Int × String) := []    -- report, height, ref name
   newM : List MRec := []
   nFunded : Nat := 0
+  nFlag : Nat := 0
   nChase : Nat := 0
   nRejFake : Nat := 0
   nExpired : Nat := 0
@@ -124,6 +126,13 @@ def finishSlashBlock (sc : SlScan) : SlScan := Id.run do
         sc := sfail sc s!"dispute {d.id} was funded (and slashed) at t={cur.now}, more than a day after its proposal at {d.start}"
       if fundedNow then
         sc := { sc with nFunded := sc.nFunded + 1 }
+        -- the aggregate the disputed report determined (same query, that reporter's micro report at that height) is flagged from now on
+        for a in prev.aggs do
+          if a.1 == d.qid && a.2.1 == d.height && a.2.2.1 == d.reporter then
+            sc := { sc with nFlag := sc.nFlag + 1 }
+            match cur.aggs.find? (fun b => b.1 == a.1 && b.2.2.2.2 == a.2.2.2.2) with
+            | some b => if !b.2.2.2.1 then sc := sfail sc s!"dispute {d.id} funded: the aggregate of query {d.qid} determined by {d.reporter}'s report at height {d.height} is not flagged"
+            | none => sc := sfail sc s!"dispute {d.id} funded: the aggregate of query {d.qid} at height {d.height} disappeared"
         match catOf d.cat with
         | none => sc := sfail sc s!"dispute {d.id} has no category"
         | some cat =>
@@ -222,6 +231,9 @@ def scanSlash (out : String) : SlScan := Id.run do
       sc := { sc with cur := { sc.cur with ubd := (commaList (rec.drop 2).toString).filterMap (fun e => match colon e with
         | [d, v, b] => (parseInt? b).map (fun x => (d, v, x)) | _ => none) } }
     else if rec.startsWith "P " then sc := { sc with cur := { sc.cur with pools := fieldsOf rec } }
+    else if rec.startsWith "A " then
+      sc := { sc with cur := { sc.cur with aggs := (commaList (rec.drop 2).toString).filterMap (fun e => match colon e with
+        | [q, mh, rp, fl, ts] => do pure (q, ← parseInt? mh, rp, fl == "true", ← parseInt? ts) | _ => none) } }
     else if rec.startsWith "E" then
       sc := { sc with cur := { sc.cur with disputes := (commaList (rec.drop 2).toString).filterMap parseE } }
       pendingBlock := true
@@ -242,7 +254,7 @@ def runSlash (_inp : List String) (out : String) : Option Res :=
   -- a failure that lies entirely inside the recorded finding's trigger is reported as that finding
   let onlyKnown := sc.mon && sc.known
   some { agree := sc.ok && !sc.halted, monitor := sc.mon && !sc.known, nontrivial := decide (sc.nFunded ≥ 1),
-         model := s!"funded={sc.nFunded} chased={sc.nChase} fakeRejected={sc.nRejFake} expired={sc.nExpired} apportionChecked={sc.nApp}",
+         model := s!"funded={sc.nFunded} flagged={sc.nFlag} chased={sc.nChase} fakeRejected={sc.nRejFake} expired={sc.nExpired} apportionChecked={sc.nApp}",
          note := if sc.note != "" then sc.note else sc.knownNote,
          finding := if onlyKnown then "dispute-report-unverified" else "" }
 
